@@ -35,14 +35,25 @@ func c06Doc2() map[string]interface{} {
 // template (paths, predicates, grouping, sorting, chains, partial application, transforms, lambdas
 // with signatures, blocks with variables).
 func c06Program() string {
+	// function values, a lambda and a regex come first so that the quick tier has them
+	args := []string{"s", "$sum", "function($x){$x}", "n", "/a/", "arr1", "obj1", "nothing", "$uppercase", "$contains(?)"}
+	for _, a := range c09Args {
+		dup := false
+		for _, b := range args {
+			dup = dup || a == b
+		}
+		if !dup {
+			args = append(args, a)
+		}
+	}
 	nargs := verifParam("ARGS", 8)
-	if nargs > len(c09Args) {
-		nargs = len(c09Args)
+	if nargs > len(args) {
+		nargs = len(args)
 	}
 	if verifChoose(2) == 0 {
-		return c09BuiltinExpr(nargs)
+		return c09BuiltinExprM(args[:nargs])
 	}
-	return c09NodeExpr(nargs)
+	return c09NodeExprM(args[:nargs])
 }
 
 // c06Stable reports whether the program's outcome is a function of its input only.
